@@ -102,3 +102,69 @@ package verifspec
 //@   ensures typeis(node, "*go/ast.BinaryExpr") && mayPanicDiv(key(node)) ==> v.hasSideEffect
 //@   ensures typeis(node, "*go/ast.TypeAssertExpr") && singleValueAssert(key(node)) ==> v.hasSideEffect
 //@   ensures typeis(node, "*go/ast.IndexExpr") && mayPanicIndex(key(node)) ==> v.hasSideEffect
+
+// ---- dependency recording while translating (C05): wherever the translator emits a reference to a package-level object
+// or to a method by name, it first tells the collector (DeclareDCEDep).  dcedep(o) is the ghost record of those calls.
+//@ ghostfn dcedep int
+//@ pure pkgLevelObj(o int) bool
+//@ pure exportedObj(o int) bool
+//@ extern compiler/internal/dce.Collector.DeclareDCEDep
+//@   param c o tNest tArgs
+//@   assigns nothing
+//@   ghost dcedep(key(o)) = 1
+//@ extern compiler/internal/typeparams.Instance.TypeParamsString
+//@   param inst open close
+//@   assigns nothing
+//@ extern compiler/internal/typeparams.PackageInstanceSets.ID
+//@   param s inst
+//@   assigns nothing
+//@ extern compiler.isPkgLevel
+//@   param o
+//@   assigns nothing
+//@   ensures result == pkgLevelObj(key(o))
+
+// instName: a non-trivial instance (one with type arguments of its own or of the enclosing function) is recorded with
+// those arguments before its name is built; the object itself is recorded by objectName.
+//@ func compiler.funcContext.instName
+//@ property C05
+//@   requires fc != nil && fc.pkgCtx != nil
+//@   panics_only_if true
+//@   ensures !(len(inst.TArgs) == 0 && len(inst.TNest) == 0) ==> dcedep(key(inst.Object)) == 1
+//@   ensures pkgLevelObj(key(inst.Object)) ==> dcedep(key(inst.Object)) == 1
+
+//@ extern go/types.Object.Pkg
+//@   param o
+//@   assigns nothing
+//@ extern go/types.Object.Name
+//@   param o
+//@   assigns nothing
+//@ extern go/types.Object.Exported
+//@   param o
+//@   assigns nothing
+//@ extern compiler/internal/typeparams.FindNestingFunc
+//@   param o
+//@   assigns nothing
+//@ extern compiler.isVarOrConst
+//@   param o
+//@   assigns nothing
+//@ extern compiler.funcContext.pkgVar
+//@   param fc pkg
+//@   assigns heap(pkgContext.pkgVars), heap(funcContext.allVars)
+//@ extern compiler.funcContext.newVariable
+//@   param fc name pkgLevel
+//@   assigns heap(funcContext.allVars), heap(funcContext.localVars)
+//@ extern compiler.funcContext.root
+//@   param fc
+//@   assigns nothing
+//@   ensures result != nil
+//@ extern compiler.funcContext.assignedObjectName
+//@   param fc o
+//@   assigns nothing
+
+// objectName: every package-level object whose name is handed out is recorded first.
+//@ func compiler.funcContext.objectName
+//@ property C05
+//@   requires fc != nil && fc.pkgCtx != nil
+//@   assigns heap(pkgContext.pkgVars), heap(funcContext.allVars), heap(funcContext.localVars), heap(funcContext.objectNames)
+//@   panics_only_if true
+//@   ensures pkgLevelObj(key(o)) ==> dcedep(key(o)) == 1
